@@ -7,7 +7,7 @@
    Specification: Spec/Draft4.v ([conforms], [inline]).  [rx_search] is the
    table of recognisers for the schema regexes, tied to re.search by O-rx. *)
 From MF Require Import Lib.Base Lib.Json Lib.PyDict Gen.Schemas Model.Case Model.SchemaStore Model.Schema
-  Model.Validator Spec.Versioned Spec.Draft4 Proofs.C07 Proofs.C07Paths Proofs.C07F.
+  Model.Validator Model.Api Spec.Versioned Spec.Draft4 Proofs.C07 Proofs.C07Paths Proofs.C07F Proofs.C07U.
 Open Scope Z_scope.
 
 (* [U] iter_errors_complete: for every well-formed schema tree (any nesting of
@@ -105,6 +105,43 @@ Theorem C07_validate_list_never_raises_partial :
     exists msgs, run_validator tree (VList ds) = Ok msgs.
 Proof. exact validate_list_never_raises_lemma. Qed.
 Print Assumptions C07_validate_list_never_raises_partial.
+
+(* ---- the assumption discharged for loaded dictionaries (Proofs/C07U.v, agent prover-c07) *)
+
+(* [U] for EVERY text and flag combination the dictionary loads returns has the
+   shape the never-raises theorem asks for - lower-case pairwise distinct keys, a
+   string __type__ on the root and on every dictionary in a list - except,
+   possibly, for __position__ entries *)
+Theorem C07_loaded_dictionaries_are_shaped :
+  forall ip ic text v, loads ip ic text = Ok v -> root_okS_any v.
+Proof. exact loads_root_okS. Qed.
+Print Assumptions C07_loaded_dictionaries_are_shaped.
+
+(* [U] hence validate never raises on a dictionary loads returned (positions
+   off) that holds no __position__ key, for every well-formed schema tree; the
+   guard is exactly what is missing ([loads_root_ok_iff]) and is needed: [R] *)
+Theorem C07_validate_loaded_never_raises :
+  forall tree ic text v, wf_schema tree = true -> nopos_any v = true -> loads false ic text = Ok v ->
+    exists msgs, run_validator tree v = Ok msgs.
+Proof. exact validate_loaded_never_raises. Qed.
+Print Assumptions C07_validate_loaded_never_raises.
+
+Theorem C07_loaded_dictionary_with_position_key_refuted :
+  exists text v, loads false false text = Ok v /\ ~ root_ok_any v /\ nopos_any v = false.
+Proof. exact loads_root_ok_refuted_type_attribute. Qed.
+Print Assumptions C07_loaded_dictionary_with_position_key_refuted.
+
+(* [U] with positions recorded (any flags), against the shipped MAP schema:
+   validate never raises on a loaded dictionary whose position records are
+   records or non-empty lists of records wherever a message can be located
+   ([posok_any]; PARTIAL: not proved for every loaded dictionary).  Before the
+   fix b8dd688 recorded in known_findings.json this was refuted by
+   MAP LAYER PROCESSING 5 END END (a list of records under a repeatable keyword). *)
+Theorem C07_validate_loaded_never_raises_with_positions_partial :
+  forall ip ic text v, posok_any v = true -> loads ip ic text = Ok v ->
+    exists msgs, run_validator map_tree v = Ok msgs.
+Proof. exact validate_loaded_never_raises_positions_map. Qed.
+Print Assumptions C07_validate_loaded_never_raises_with_positions_partial.
 
 (* [U] every error path of the model of iter_errors leads to a node of the
    instance (objects with distinct keys), for every schema tree *)
